@@ -1,6 +1,7 @@
 package main
 
 import (
+	"syscall"
 	"archive/zip"
 	"encoding/hex"
 	"fmt"
@@ -241,8 +242,61 @@ func zipExec(ctx *Ctx, w []string) {
 	}
 }
 
+// zipManyFiles: a tree with far more regular files than the process may hold open at once (the soft limit on open
+// descriptors is lowered to 96 for this one round trip): a resource that is released only when the whole
+// archive is done runs out half-way, and the destination is missing files.  Judged by the Go-side monitor.
+func zipManyFiles(ctx *Ctx) {
+	ctx.R.Case("manyfiles")
+	var old syscall.Rlimit
+	if syscall.Getrlimit(syscall.RLIMIT_NOFILE, &old) != nil {
+		ctx.R.Comment("manyfiles: no descriptor limit to lower on this platform")
+		return
+	}
+	low := old
+	low.Cur = 96
+	if syscall.Setrlimit(syscall.RLIMIT_NOFILE, &low) != nil {
+		ctx.R.Comment("manyfiles: the descriptor limit cannot be lowered")
+		return
+	}
+	defer syscall.Setrlimit(syscall.RLIMIT_NOFILE, &old)
+	box := newBox()
+	src, dest := filepath.Join(box, "src"), filepath.Join(box, "dest")
+	want := map[string]string{}
+	for i := 0; i < 420; i++ {
+		rel := fmt.Sprintf("d%02d/f%03d.txt", i/30, i)
+		os.MkdirAll(filepath.Join(src, filepath.Dir(rel)), 0o755)
+		os.WriteFile(filepath.Join(src, rel), []byte(rel), 0o644)
+		want[filepath.Join(dest, rel)] = rel
+	}
+	os.MkdirAll(dest, 0o755)
+	zf := filepath.Join(box, "many.zip")
+	out := guard(func() string {
+		if err := files.ZipFolder(src, zf, nil, true); err != nil {
+			return "ZipFolder: " + err.Error()
+		}
+		if err := files.UnzipToFolder(zf, dest); err != nil {
+			return "UnzipToFolder: " + err.Error()
+		}
+		return "ok"
+	})
+	syscall.Setrlimit(syscall.RLIMIT_NOFILE, &old)
+	fl, _ := snapshot(dest)
+	good := 0
+	for _, x := range fl {
+		if c, in := want[x.path]; in && c == x.content {
+			good++
+		}
+	}
+	ctx.R.Nontrivial("many files")
+	if out != "ok" || good != len(want) || len(fl) != len(want) {
+		ctx.R.Quiet("mon C20-roundtrip", fmt.Sprintf("a tree of %d small files, at most 96 descriptors open at a time: %s; %d files came back intact, %d present", len(want), out, good, len(fl)))
+	}
+	ctx.R.Comment(fmt.Sprintf("manyfiles: %d files round-tripped under a descriptor limit of 96", good))
+}
+
 func runZip(ctx *Ctx) {
 	ctx.R.PerOp()
+	defer zipManyFiles(ctx)
 	r := ctx.Rnd
 	wd, _ := os.Getwd()
 	zipBoxRoot = filepath.Join(wd, "zipbox")
